@@ -10,6 +10,7 @@ from sim import batch                       # noqa: E402
 from sim.world import World                 # noqa: E402
 from sim.mutate import patch_function       # noqa: E402
 from refs import rsk                        # noqa: E402
+from sim.devices import ledger as L         # noqa: E402
 
 PROPERTY = "C05"
 LEVEL = "exploration"
@@ -193,9 +194,16 @@ def _one_request(w, ch, cfg):
         arm["used"] = True
         arm["at"] = w.link.index + ch.draw(40, "link-fault.at")
         arm["kind"] = LINK_FAULTS[ch.draw(len(LINK_FAULTS), "link-fault.kind")]
+    t0 = len(w.link.transport)
     rep, exc = w.request(req)
     fired = arm.get("fired")
+    fault_at = arm.get("at")
     arm.pop("at", None)
+    # the exchange at which the device reported its outcome (total / partial success): whatever the
+    # manager chooses to do on the link after that does not take the outcome back
+    out_i = next((e[1] for e in w.link.transport[t0:] if e[0] == "xchg" and len(e) == 5 and
+                  len(e[2]) > 1 and e[2][1] in (L.INS_ADVANCE, L.INS_UPD_ANCESTOR) and
+                  len(e[3]) >= 3 and e[3][2] in (0x05, 0x06)), None)
     viol = list(dev.violations)
     del dev.violations[:]
     if exc is not None:
@@ -206,7 +214,12 @@ def _one_request(w, ch, cfg):
     else:
         code = rep["errorcode"]
         want = {"success": 0, "partial": 1}.get(result)
-        if fired:
+        if fired and out_i is not None and fault_at is not None and fault_at > out_i and want is not None:
+            if code != want:
+                viol.append(("reply/outcome-overridden-after-the-device-reported-it",
+                             "device reported %s at exchange %d; link fault %s at exchange %d; "
+                             "errorcode=%d" % (result, out_i, fired, fault_at, code)))
+        elif fired:
             if code in (0, 1) and code != want:
                 viol.append(("reply/false-success", "link fault %s, device reported %s but errorcode=%d"
                              % (fired, result, code)))
